@@ -46,11 +46,16 @@ Theorem c18_reader_segment_closed : forall l1 lx ly hx hy l2 x,
   let t := ((x - lx) / (hx - lx))%Q in
   (get_value (l1 ++ (lx, ly) :: (hx, hy) :: l2) x == ly * (1 - t) + hy * t)%Q.
 Proof. exact get_value_segment_closed. Qed.
+Theorem c18_reader_segment_bounded : forall l1 lx ly hx hy l2 x,
+  xsorted (l1 ++ (lx, ly) :: (hx, hy) :: l2) -> (lx <= x)%Q -> (x <= hx)%Q ->
+  (Qmin ly hy <= get_value (l1 ++ (lx, ly) :: (hx, hy) :: l2) x)%Q /\ (get_value (l1 ++ (lx, ly) :: (hx, hy) :: l2) x <= Qmax ly hy)%Q.
+Proof. exact get_value_segment_bounded. Qed.
 Theorem c18_reader_outside : forall pts x, (x < first_x pts)%Q \/ (last_x pts < x)%Q -> get_value pts x = 0%Q.
 Proof. exact get_value_outside. Qed.
 Print Assumptions c18_reader_rows.
 Print Assumptions c18_reader_between.
 Print Assumptions c18_reader_segment_closed.
+Print Assumptions c18_reader_segment_bounded.
 
 (* --- table form: zero outside [xmin, xmax] (value and both derivatives); deriv and deriv2 are the true
        derivatives of the interpolant and of deriv, at every real x off the knots and the two ends *)
